@@ -111,10 +111,32 @@ func (cr *checkRun) generate() {
 			}
 		}
 	}
+	// implementer checks: every runtime type listed in an iface block is verified against it
+	implSpecs := map[string]*FuncSpec{}
+	var ikeys []string
+	for key := range cr.specs.Ifaces {
+		ikeys = append(ikeys, key)
+	}
+	sort.Strings(ikeys)
+	for _, key := range ikeys {
+		isp := cr.specs.Ifaces[key]
+		if len(isp.Implementers) == 0 || !(specHasProp(isp, cr.prop) || sweepProps[cr.prop] != nil) {
+			continue
+		}
+		for _, tn := range isp.Implementers {
+			is := ImplSpec(isp, key, tn)
+			implSpecs[is.Name] = is
+			todo = append(todo, is.Name)
+			seen[is.Name] = true
+		}
+	}
 	for len(todo) > 0 {
 		name := todo[0]
 		todo = todo[1:]
 		sp := cr.specs.Funcs[name]
+		if sp == nil {
+			sp = implSpecs[name]
+		}
 		ex := NewExec(cr.prog, cr.specs)
 		ex.VerifyFunc(sp)
 		cr.funcs = append(cr.funcs, name)
@@ -479,6 +501,31 @@ func runCheck(prop, tier string, writeBaseline, verbose bool, t0 time.Time) int 
 		}
 		sort.Strings(be.Claimed)
 		sort.Strings(be.Unclaimed)
+		// maintainer guard: an obligation that the previous baseline claimed and that is now generated
+		// but not discharged must not silently leave the baseline
+		if prev := base[prop]; prev != nil {
+			was := map[string]bool{}
+			for _, c := range prev.Claimed {
+				was[c] = true
+			}
+			wasUn := map[string]bool{}
+			for _, u := range prev.Unclaimed {
+				if i := strings.LastIndex(u, " ["); i >= 0 {
+					u = u[:i]
+				}
+				wasUn[u] = true
+			}
+			for _, g := range groups {
+				if g.Status == "discharged" {
+					continue
+				}
+				if was[g.Name] {
+					fmt.Printf("  WARNING dropped from the baseline (was claimed, now %s): %s\n", g.Status, g.Name)
+				} else if !wasUn[g.Name] && g.Kind != "nil" {
+					fmt.Printf("  WARNING new obligation not discharged (%s): %s\n", g.Status, g.Name)
+				}
+			}
+		}
 		base[prop] = be
 		os.MkdirAll(filepath.Join(verifDir, "baseline"), 0755)
 		b, _ := json.MarshalIndent(base, "", " ")
